@@ -10,6 +10,7 @@ From PV Require Import Extract.RunC06.
 From PV Require Import Extract.RunC20.
 From PV Require Import Extract.RunC15.
 From PV Require Import Extract.RunC18.
+From PV Require Import Extract.RunC11.
 Import ListNotations.
 Local Open Scope N_scope.
 
@@ -111,5 +112,8 @@ Definition run (cmd : N) (arg : sx) : sx :=
   | 154 => run_c15_4 arg
   | 180 => run_c18_parse arg
   | 181 => run_c18_checks arg
+  | 110 => run_c11_parse arg
+  | 111 => run_c11_spans arg
+  | 112 => run_c11_cover arg
   | _ => L [A 999999]
   end.
